@@ -30,7 +30,7 @@ from tools.harness.codec import campaign, dsdlgen, model as modelmod, proto, val
 TIE = 'F-F16-TIE'
 # translators whose output is in the cone of Properties/C03.v: the option list of properties.yaml (classification of every language
 # option), nunavut.lang.c.is_zero_cost_primitive (which array path a C build takes), the macro structure of the codec templates
-GENERATORS = ['optguard', 'c01', 'codec_tpl']
+GENERATORS = ['optguard', 'c03opt', 'c01', 'codec_tpl']
 
 # deterministic types added to every generated namespace: the finding's witness and layouts the drills aim at
 OWN_FILES = {
@@ -58,6 +58,14 @@ WITNESS_VALUE_ARRAY = [0, 0, 0, 0, [0x3F801000, 0xBF801000]]
 # option matrix
 # ------------------------------------------------------------------------------------------------
 
+CFG_DIR = os.path.join(os.path.dirname(os.path.abspath(__file__)), 'c03_cfg')
+# C++ builds under option VALUES no other check builds (audit3 C03 #1): the uses-leading-allocator constructor convention (pmr flavour)
+# and a custom variable-length array container (harness stub c03_cfg/include/c03_vec.hpp); nnvg --configuration overrides
+CPP_LEADING = {'std': 'c++17-pmr', 'target_endianness': 'any', 'nnvg_extra': ['--configuration', os.path.join(CFG_DIR, 'leading_alloc.yaml')]}
+CPP_CUSTOM_VEC = {'std': 'c++17', 'target_endianness': 'little', 'enable_serialization_asserts': True,
+                  'nnvg_extra': ['--configuration', os.path.join(CFG_DIR, 'custom_vec.yaml')],
+                  'extra_cxxflags': ['-I', os.path.join(CFG_DIR, 'include')]}
+
 def option_matrix(tier: str, rng) -> typing.List[typing.Tuple[str, dict]]:
     if tier == 'quick':
         return [('target_c', {'target_endianness': 'any'}),
@@ -68,6 +76,7 @@ def option_matrix(tier: str, rng) -> typing.List[typing.Tuple[str, dict]]:
                 ('target_cpp', {'target_endianness': 'big', 'std': 'c++20'}),
                 ('target_cpp', {'target_endianness': rng.choice(['any', 'little', 'big']), 'std': 'c++17-pmr',
                                 'enable_serialization_asserts': rng.choice([False, True])}),
+                ('target_cpp', dict(CPP_LEADING)), ('target_cpp', dict(CPP_CUSTOM_VEC)),
                 ('target_py', {})]
     out: typing.List[typing.Tuple[str, dict]] = []
     out += [('target_c', {'target_endianness': e, 'enable_serialization_asserts': a}) for e in ('any', 'little', 'big') for a in (False, True)]
@@ -80,6 +89,8 @@ def option_matrix(tier: str, rng) -> typing.List[typing.Tuple[str, dict]]:
     out.append(('target_c', {'target_endianness': 'little', 'sanitize': True}))
     out.append(('target_c', {'target_endianness': 'little', 'enable_override_variable_array_capacity': True, 'enable_serialization_asserts': True}))
     out.append(('target_cpp', {'target_endianness': 'little', 'std': 'c++17', 'enable_override_variable_array_capacity': True}))
+    out += [('target_cpp', dict(CPP_LEADING)), ('target_cpp', dict(CPP_CUSTOM_VEC)),
+            ('target_cpp', dict(CPP_LEADING, enable_serialization_asserts=True, sanitize=True))]
     out.append(('target_py', {}))
     return out
 
